@@ -11,6 +11,9 @@ concrete assertions.
 """
 from __future__ import annotations
 
+import base64
+import pickle
+
 import random
 import sys
 import textwrap
@@ -146,7 +149,7 @@ def _work(item) -> Dict[str, Any]:
     for b in r['bad']:
         rb = replay_values(prog, Model, b['witness'], seed=vlib.seed(), ref_runner=ref_runner)
         out['bad'].append({'what': f'variant {variant}: ' + '; '.join(b['symbolic'][:3]), 'replayed': bool(rb),
-                           'replay': {'text': text, 'witness': b['witness'], 'concrete': rb}})
+                           'replay': {'text': text, 'witness': b['witness'], 'concrete': rb, 'program_pickle': base64.b64encode(pickle.dumps(prog)).decode()}})
     return out
 
 
@@ -209,7 +212,7 @@ def main() -> int:
     # the wrapping converter adds one fork per equation: keep it to programs with few joint paths
     items = [(p, v, None) for p in pool for v in variants
              if not (v.startswith('wrapper') and len(p) + fork_nodes(p) > (3 if tier == 'quick' else 4))]
-    results = run_items(work, items)
+    results = run_items(work, items, soft_items=ps['sampled'])
     for b in empty_model_case():
         rep.violation('empty-or-equationless:' + b[:40], b, {'case': b})
     for b in repeated_verbatim_case():
